@@ -61,6 +61,10 @@ def doc_cases(ctx, n, profile=None, with_mut=True, with_soup=True, opts_fn=None)
             for m in gen.mutations(rng, base['src'], k=4):
                 cases.append({'src': m, 'opts': base['opts'], 'multi': base['multi'], 'thresh': base.get('thresh'),
                               'files': base.get('files'), 'kind': 'mut', 'words': None})
+        if i % 4 == 1:
+            # other line conventions (CR LF, form feed, Unicode line separators, ...)
+            cases.append({'src': gen.exotic_breaks(rng, base['src']), 'opts': base['opts'], 'multi': base['multi'],
+                          'thresh': base.get('thresh'), 'files': base.get('files'), 'kind': 'breaks', 'words': None})
         if i % 3 == 0:
             # G-edge: every prefix ending right after a construct = construct at the very end of the text
             ends = sorted({e for (_, s, e) in r.spans if 0 < e <= len(src)})
@@ -71,6 +75,15 @@ def doc_cases(ctx, n, profile=None, with_mut=True, with_soup=True, opts_fn=None)
         cases.append({'src': r.src(), 'opts': dict(gen.gen_options(rng), pack=rng.choice(['*', '*', 'glossaries'])),
                       'multi': rng.random() < 0.2, 'kind': 'edge2', 'words': r.words})
     cases += sig_cases(rng, max(1, n // 400))
+    for _ in range(max(20, n // 20)):
+        src, files = gen.gls_doc(rng)
+        cases.append({'src': src, 'files': files, 'opts': {'pack': rng.choice(['*', 'glossaries']), 'lang': rng.choice(['en', 'de'])},
+                      'multi': rng.random() < 0.2, 'kind': 'gls', 'words': None})
+    import cref
+    for _ in range(max(10, n // 40)):
+        c = cref.make(rng, stale=rng.random() < 0.3)
+        c.pop('uses', None)
+        cases.append(c)
     if with_soup:
         for _ in range(n // 2):
             cases.append({'src': gen.soup(rng), 'opts': (opts_fn or gen.gen_options)(rng), 'multi': rng.random() < 0.2,
